@@ -89,6 +89,33 @@ pub fn c09_oracle(t: &TextTree, text: &str) -> Outcome {
         Ok(Ok(x)) => x,
     };
     let bc = boundaries(&tc);
+    // a tokenizer that was created in mode C, restricted to the fields the path-rewrite plugins read,
+    // and switched to A / B afterwards (what the Python binding does for a per-call mode) must
+    // split exactly like one created in that mode
+    for (mode, direct) in [(Mode::A, &ta), (Mode::B, &tb)] {
+        o.evaluations += 1;
+        let r = catch(|| {
+            let mut tok = sudachi::analysis::stateful_tokenizer::StatefulTokenizer::new(dict.clone(), Mode::C);
+            tok.set_subset(sudachi::dic::subset::InfoSubset::SURFACE | sudachi::dic::subset::InfoSubset::POS_ID | sudachi::dic::subset::InfoSubset::NORMALIZED_FORM);
+            tok.set_mode(mode);
+            tok.reset().push_str(text);
+            tok.do_tokenize().map_err(|e| classify_err(&e))?;
+            let mut l = MorphemeList::empty(dict.clone());
+            l.collect_results(&mut tok).map_err(|e| classify_err(&e))?;
+            Ok::<_, AErr>(toks_of(&l))
+        });
+        match r {
+            Err(p) => o.fail(Failure::panic(&format!("{} {:?} mode set after a field subset", w.name(), text), &p)),
+            Ok(Err(e)) => o.fail(Failure::new("error-with-mode-set-later", format!("[{}] {:?}: {:?}", w.name(), text, e))),
+            Ok(Ok(t2)) => {
+                let a: Vec<(usize, usize, u32)> = t2.iter().map(|t| (t.begin, t.end, t.word_id)).collect();
+                let b: Vec<(usize, usize, u32)> = direct.iter().map(|t| (t.begin, t.end, t.word_id)).collect();
+                if a != b {
+                    o.fail(Failure::new("mode-set-later-splits-differently", format!("[{}] {:?}: a tokenizer switched to mode {} after set_subset(surface, pos, normalized form) gives {:x?}, one created in that mode {:x?}", w.name(), text, mode_name(mode), a, b)));
+                }
+            }
+        }
+    }
     for (mname, tm, k) in [("A", &ta, 0usize), ("B", &tb, 1usize)] {
         let ctx = format!("[{} mode {}] {:?}", w.name(), mname, text);
         let bm = boundaries(tm);
